@@ -191,7 +191,7 @@ class PythonStringlyTypedAnalyzer:  # thailint: ignore[srp]
         """
         try:
             return ast.parse(code)
-        except SyntaxError:
+        except (SyntaxError, RecursionError, MemoryError):
             return None
 
     def _convert_membership_pattern(
